@@ -2,6 +2,7 @@ pub mod c01;
 pub mod c02;
 pub mod c03;
 pub mod c04;
+pub mod c07;
 pub mod c08;
 pub mod c09;
 pub mod c11;
@@ -29,6 +30,7 @@ pub fn all() -> Vec<Prop> {
         Prop { id: "C04", level: "exploration", run: c04::run, replay: c04::replay },
         Prop { id: "C05", level: "exploration", run: par::run_c05, replay: par::replay },
         Prop { id: "C06", level: "fault_enumeration", run: par::run_c06, replay: par::replay },
+        Prop { id: "C07", level: "exploration", run: c07::run, replay: c07::replay },
         Prop { id: "C08", level: "exploration", run: c08::run, replay: c08::replay },
         Prop { id: "C09", level: "exploration", run: c09::run, replay: c09::replay },
         Prop { id: "C11", level: "exploration", run: c11::run, replay: c11::replay },
